@@ -163,6 +163,25 @@ def to_int_elem(e):
     return _builtin_int(e)
 
 
+_NARROW_INTS = {"int32": (32, True), "int16": (16, True), "int8": (8, True), "uint32": (32, False), "uint16": (16, False), "uint8": (8, False)}
+
+
+def narrow_int_elem(e, bits, signed):
+    """Cast to a fixed-width integer as numpy does on this platform: in range, truncation towards
+    zero; out of range, an integer source wraps modulo 2**bits and a float source gives the most
+    negative value (x86 cvttsd2si; what numpy 2 on this image returns)."""
+    lo = -(1 << (bits - 1)) if signed else 0
+    hi = lo + (1 << bits) - 1
+    if not isinstance(e, Sym):
+        with _np.errstate(all="ignore"):
+            return _builtin_int(_np.asarray(e).astype(f"{'' if signed else 'u'}int{bits}"))
+    v = int_(e)
+    ok = core.And(v >= lo, v <= hi)
+    if isinstance(e, SymReal):
+        return core.If(ok, v, lo if signed else 0)
+    return core.If(ok, v, (v - lo) % (1 << bits) + lo)
+
+
 def round_elem(e, decimals=0):
     if isinstance(e, SymReal):
         r = e.__round__(decimals) if decimals else e.__round__()
@@ -246,6 +265,9 @@ def _m_astype(obj, dtype=None, *a, **k):
         return _map(obj, to_int_elem)
     if dtype in (float, "float", _np.float64, _np.float_, "float64"):
         return _map(obj, to_float_elem)
+    narrow = _NARROW_INTS.get(dtype if isinstance(dtype, str) else getattr(dtype, "__name__", None))
+    if narrow is not None:
+        return _map(obj, lambda e: narrow_int_elem(e, *narrow))
     if dtype in (object, "object", "O"):
         return obj.astype(object)
     if dtype in (str, "str", "string"):
